@@ -19,7 +19,7 @@ import (
 //	           dispatcher and WorkerCount() workers, no panic, every task once, shutdown terminates.
 func extraGated() []gatedCfg {
 	var out []gatedCfg
-	big := 2*runtime.NumCPU() + 1
+	big := 2*runtime.NumCPU() + 5 // always above 2*NumCPU and never one of the literal counts
 	for _, w := range []int{1, 2, 4, big} {
 		for _, cancel := range []bool{false, true} {
 			for _, grp := range []bool{false, true} {
